@@ -29,7 +29,7 @@ RULE = ('Each case = 1-4 generated probe directories (independent spike counts 4
         'one process and judge the second output. '
         'non-trivial = distinct merges with >= 2 probes and a cross-probe time tie, or >= 3 probes.')
 EXHAUSTIVE = {'quick': False, 'thorough': False}
-FLOORS = {'quick': {'evaluations': 380, 'distinct_nontrivial': 150},
+FLOORS = {'quick': {'evaluations': 950, 'distinct_nontrivial': 400},
           'thorough': {'evaluations': 15000, 'distinct_nontrivial': 6000}}
 ASSUMPTIONS = ['probes with a single spike / template / channel are excluded (squeeze(); the source says '
                '"may fail in degenerate cases")', 'probe coordinates are non-negative (quantifier of C12)']
@@ -38,7 +38,7 @@ TSVS = ['cluster_Amplitude.tsv', 'cluster_ContamPct.tsv', 'cluster_KSLabel.tsv']
 
 
 def plan(tier, seed):
-    n = 400 if tier == 'quick' else 20000
+    n = 1000 if tier == 'quick' else 20000
     return [{'shard': i, 'n': NSHARDS, 'seed': seed, 'cases': n // NSHARDS} for i in range(NSHARDS)]
 
 
